@@ -754,6 +754,7 @@ var corpus = []struct {
 	{"a: @x\n", map[string]string{"x.d2": "b: @y\n", "y.d2": "c: @x\n"}},
 	{"a: @index\n", nil},
 	{"d: {shape: class; f0}\nd: {c: {_.A.B <-> b}}\n", nil},
+	{"Classes: {\nd: {shape: sql_table; f0; f1: int}\nd.c: {\n_._.x -> y\n}\n}\n", nil},
 	{"shape: sql_table\nA: {\n_.z.y -> b\n}\n", nil},
 	{"classes: {a: {class: a}}\nx.class: a\n", nil},
 	{"vars: {\nv1: {\na: ${v1}\n}\n}\n", nil},
@@ -777,6 +778,17 @@ func run(c *hl.Ctx) error {
 	r := c.Rand()
 	if os.Getenv("C07_FUZZ") != "" {
 		return fuzz(c, r)
+	}
+	if f := os.Getenv("C07_SHRINK"); f != "" {
+		// development aid: minimise the `compile` case stored in a replay file, keeping its outcome key
+		c.Replay = f
+		cs := c.ReplayCase()
+		in := cs["in"].(map[string]any)
+		src, files := in["src"].(string), strmap(in["files"])
+		res, _ := timed(src, files, 15*time.Second)
+		ms, mf := shrink(src, files, keyOf(res))
+		fmt.Fprintf(os.Stderr, "=== %s %s\n--- src\n%s--- files %q\n", keyOf(res), res.msg, ms, mf)
+		return nil
 	}
 	for _, p := range corpus {
 		c.Emit(obsCompile(p.src, p.files, nil))
